@@ -367,7 +367,18 @@ def impl(t):
         before = [date(c, y, m, 1)._days_since_epoch - s for m in range(1, n + 1)]
         return ints(s, ln, n, int(lp), *dims, *before)
     if op == "ref.days":
-        return str(date(int(t[1]), int(t[2]), int(t[3]), int(t[4]))._days_since_epoch)
+        # the date is built from its fields (the direction under test), then re-made by one of the public routes
+        # (strict: a route that lands elsewhere is reported) and must itself be in step (fields <-> day number)
+        import routes
+        c = int(t[1])
+        b = date(c, int(t[2]), int(t[3]), int(t[4]))
+        r = routes.routed_date(cal(c), b._days_since_epoch, salt=int(t[2]), strict=True)
+        bad = routes.date_out_of_step(r)
+        if bad or (r.year, r.month, r.day) != (b.year, b.month, b.day):
+            return f"OUT-OF-STEP {bad or (r.year, r.month, r.day)}"
+        return str(r._days_since_epoch)
+    if op == "cal.ymd":
+        return c01.impl(t)
     if op == "ref.pyord":
         return str(P.LocalDate(int(t[1]), int(t[2]), int(t[3]))._days_since_epoch + EPOCH_RD)
     if op == "ref.pyymd":
@@ -453,6 +464,36 @@ def o_pyymd(n):
     return None
 
 
+def o_inverse(c, d):
+    """day number -> date: the date the code reports for day d must denote day d under the published algorithm"""
+    r = REFS.get(c) if isinstance(REFS, dict) else REFS[c]
+    k = cal(c)
+    if r is None or not k._min_days <= d <= k._max_days:
+        return None
+    x = c01.from_days(c, d)
+    if x.year < r.first_year:
+        return None
+    want = ref_days(c, x.year, x.month, x.day)
+    if want != d:
+        return F("day-to-date", c, f"day {d} is reported as {x.year}-{x.month}-{x.day}, which the published algorithm puts on day {want}")
+    return None
+
+
+def gen_inverse_ops(ctx, n):
+    """the SAME physical days converted into every arithmetic calendar, sibling calendars (the 8 Hijri variants, the
+    Hebrew numberings, the Persian variants, ISO/Gregorian/Julian) next to each other: one op list, interleaved by day"""
+    rng = ctx.rng
+    ops = []
+    los = [cal(c)._min_days for c in ARITH]
+    his = [cal(c)._max_days for c in ARITH]
+    for _ in range(n):
+        d = rng.choice([rng.randint(max(los), min(his)), rng.randint(-200000, 200000), rng.randint(min(los), max(his))])
+        for c in sorted(ARITH, key=lambda c: (cal(c).name, c)):
+            if cal(c)._min_days <= d <= cal(c)._max_days:
+                ops.append(f"cal.ymd {c} {d}")
+    return ops
+
+
 def oracle(t):
     op = t[0]
     a = [int(x) for x in t[1:]]
@@ -464,6 +505,8 @@ def oracle(t):
         return o_pyord(*a)
     if op == "ref.pyymd":
         return o_pyymd(*a)
+    if op == "cal.ymd":
+        return o_inverse(*a)
     return None
 
 
@@ -592,6 +635,8 @@ def run(ctx):
     pcorrespond(ctx, "reference.years", chunks(gen_year_ops(), 1500), impl, oracle, neighbours, exhaustive=True)
     ctx.note("t_years_s", round(time.time() - t0, 1))
     pcorrespond(ctx, "reference.days", chunks(gen_day_ops(ctx, ctx.scale(1500, 100000)), 4000), impl, oracle, neighbours)
+    pcorrespond(ctx, "reference.day-to-date (same day into sibling calendars, interleaved)",
+                chunks(gen_inverse_ops(ctx, ctx.scale(1200, 60000)), 3400), impl, oracle, neighbours)
     if ctx.thorough:
         specs = [("ops", [f"ref.pyymd {n}" for n in range(a, min(a + 50000, 3652060))]) for a in range(1, 3652060, 50000)]
         pcorrespond(ctx, "reference.iso-vs-stdlib", specs, impl, oracle, neighbours, exhaustive=True)
